@@ -95,6 +95,8 @@ public:
    */
   template<class T> static T logsum(T lnx, T lny)
   {
+    if (lnx == lny)
+      return lnx + std::log(static_cast<T>(2)); // also covers two equal infinities, where lny - lnx is NaN
     return (lny < lnx) ?
            lnx + std::log(1. + exp(lny - lnx)) :
            lny + std::log(1. + exp(lnx - lny));
